@@ -144,8 +144,15 @@ impl Vm {
                     RuleType::CompoundAtomic => state.atomic(Atomicity::CompoundAtomic, |state| {
                         state.rule(&rule.name, |state| self.parse_expr(&rule.expr, state))
                     }),
-                    RuleType::NonAtomic => state.atomic(Atomicity::Atomic, |state| {
-                        state.rule(&rule.name, |state| self.parse_expr(&rule.expr, state))
+                    // As in the generated parser: the rule itself runs non-atomically (so it
+                    // produces its token pair even when called from an atomic rule), its body
+                    // atomically.
+                    RuleType::NonAtomic => state.atomic(Atomicity::NonAtomic, |state| {
+                        state.rule(&rule.name, |state| {
+                            state.atomic(Atomicity::Atomic, |state| {
+                                self.parse_expr(&rule.expr, state)
+                            })
+                        })
                     }),
                 }
             } else {
